@@ -173,9 +173,18 @@ def _is_valid(ctx, f):
     loops = [n for n in walk_own(f.node) if isinstance(n, ast.For)]
     CHAIN = ("call", "itertools.chain",
              (("list", (NEXT,)), ("param", p_in)), ())
+    partial = []
+
     def line_source(t):
         """(element term, first index) of the accepted loop forms"""
         if t in (("param", p_in), CHAIN):
+            return ("elem", t), None
+        if t[0] == "mcall" and t[1] == ("param", p_in) and \
+                t[2] == "readlines":
+            # readlines() is every remaining line; readlines(hint) stops
+            # after about ``hint`` bytes
+            if t[3] or t[4]:
+                partial.append(t)
             return ("elem", t), None
         if t[0] == "call" and t[1] == "builtins.enumerate" and \
                 t[2][:1] == (("param", p_in),):
@@ -198,10 +207,14 @@ def _is_valid(ctx, f):
     tn = cfg.node_of(trues[0]).id
     ok = cfg.every_path_passes(cfg.entry.id, tn, {cfg.node_of(lp).id}) and \
         not inside(trues[0], lp)
-    ctx.check(ok, "C19b-true-only-after-all-lines", f,
+    ctx.check(ok and not partial, "C19b-true-only-after-all-lines", f,
               "True is returned only after the loop over every remaining "
-              "line", "return True can be reached without scanning all "
-              "lines", node=trues[0])
+              "line",
+              ("the loop reads " + show(partial[0], 60) + ": a size hint "
+               "ends the read early, lines beyond it are never examined"
+               if partial else
+               "return True can be reached without scanning all lines"),
+              node=trues[0])
 
     def conds(r, region=None):
         out = []
